@@ -57,6 +57,8 @@ struct Parked {
 struct HubState {
     enabled: bool,
     park_reads: bool,
+    /// tasks whose read calls park (before and after landing) even when `park_reads` is off
+    read_tasks: Vec<u32>,
     next_id: u64,
     parked: Vec<Parked>,
     released: u64,
@@ -76,6 +78,11 @@ impl Hub {
     }
     pub fn set_park_reads(&self, on: bool) {
         self.0.lock().unwrap().park_reads = on;
+    }
+    /// Read calls of these tasks (OP_ID values) become decision points of their own: a reader's
+    /// GET may land before a writer's PUT and be delivered to the reader after it.
+    pub fn set_read_tasks(&self, tasks: Vec<u32>) {
+        self.0.lock().unwrap().read_tasks = tasks;
     }
     pub fn parked(&self) -> Vec<ParkInfo> {
         let mut v: Vec<ParkInfo> = self.0.lock().unwrap().parked.iter().map(|p| p.info.clone()).collect();
@@ -110,7 +117,7 @@ impl Hub {
             if !st.enabled {
                 return true;
             }
-            if !op.is_mutation() && !st.park_reads && phase != Phase::Start {
+            if !op.is_mutation() && !st.park_reads && phase != Phase::Start && !st.read_tasks.contains(&current_op()) {
                 return true;
             }
             let (tx, rx) = oneshot::channel();
